@@ -168,6 +168,44 @@ fn crafted_programs() -> Vec<Prog> {
         src += " acc\n}\n";
         v.push(Prog { origin: format!("crafted-defs-{n}"), src, consts: vec![] });
     }
+    // the same failure conditions checked on both paths of a branch, in different orders (the panic
+    // caches of the two paths hold the same keys with different histories when they are merged)
+    let pool = ["a / p", "b / q", "a + b", "a - q", "arr[i]", "b % p", "a * q", "p - b"];
+    for n in 0..24usize {
+        let k = 2 + n % 3;
+        let picked: Vec<&str> = (0..k).map(|j| pool[(n * 3 + j * 5 + n / 8) % pool.len()]).collect();
+        let mut picked_dedup: Vec<&str> = vec![];
+        for c in picked {
+            if !picked_dedup.contains(&c) {
+                picked_dedup.push(c);
+            }
+        }
+        let conds = picked_dedup;
+        let rev: Vec<&str> = conds.iter().rev().cloned().collect();
+        let mut rot = conds.clone();
+        rot.rotate_left(1);
+        let one_expr = |cs: &[&str], op: &str| cs.iter().map(|c| format!("({c})")).collect::<Vec<_>>().join(&format!(" {op} "));
+        let lets = |cs: &[&str], op: &str, indent: &str| {
+            let mut t = String::new();
+            for (j, c) in cs.iter().enumerate() {
+                t += &format!("{indent}let t{j} = {c};\n");
+            }
+            t += &format!("{indent}{}\n", (0..cs.len()).map(|j| format!("t{j}")).collect::<Vec<_>>().join(&format!(" {op} ")));
+            t
+        };
+        let head = "pub fn main(c: bool, a: u8, p: u8, b: u8, q: u8, i: usize, arr: [u8; 3]) -> u8 {\n";
+        let src = match n % 3 {
+            0 => format!("{head}    if c {{\n        {}\n    }} else {{\n{}    }}\n}}\n", one_expr(&conds, "^"), lets(&rev, "&", "        ")),
+            1 => format!(
+                "{head}    match a {{\n        0u8 => {},\n        1u8 => {{\n{}        }}\n        _ => {},\n    }}\n}}\n",
+                one_expr(&conds, "^"),
+                lets(&rev, "|", "            "),
+                one_expr(&rot, "&")
+            ),
+            _ => format!("{head}    let r = if c {{ {} }} else {{ {} }};\n    if a == 0u8 {{ r }} else {{ r ^ ({}) }}\n}}\n", one_expr(&conds, "^"), one_expr(&rev, "&"), one_expr(&rot, "|")),
+        };
+        v.push(Prog { origin: format!("crafted-shared-failures-permuted-{n}"), src, consts: vec![] });
+    }
     // large circuits (size-triggered behaviour of the builder: cache growth, eviction, reallocation)
     v.push(Prog {
         origin: "crafted-large-u64-products".into(),
